@@ -53,11 +53,18 @@ def _get_uses_of(node: ast.AST, scope: ast.AST, source: str) -> Iterable[ast.Nam
     for funcdef in core.walk(scope, (ast.FunctionDef, ast.AsyncFunctionDef, ast.Lambda)):
         if node in core.walk(funcdef, type(node)):
             continue
+        # Default values are evaluated where the function is defined, not inside it
+        default_names = {
+            default_name
+            for default in (*funcdef.args.defaults, *funcdef.args.kw_defaults)
+            if default is not None
+            for default_name in core.walk(default, ast.Name)
+        }
         if any(core.walk(funcdef.args, ast.arg(arg=name))):
-            blacklisted_names.update(core.walk(funcdef, ast.Name))
+            blacklisted_names.update(set(core.walk(funcdef, ast.Name)) - default_names)
         if any(core.walk(funcdef, ast.Name(ctx=ast.Store, id=name))):
             # The name is a local variable of this function
-            blacklisted_names.update(core.walk(funcdef, ast.Name))
+            blacklisted_names.update(set(core.walk(funcdef, ast.Name)) - default_names)
 
     # A class body that binds the name itself refers to its own binding (its methods do not)
     for classdef in core.walk(scope, ast.ClassDef):
